@@ -1,12 +1,12 @@
 SPECIFICATION Spec
 CONSTANTS
   Callers = {"c1"}
-  Families = {"hooks"}
+  Families = {"hooks", "pjoin"}
   MaxN = 1
   MaxM = 1
   ScriptLen = 1
   Results = {"ok"}
-  Depth = 1
+  Depth = 6
 INVARIANT Inv
 CONSTRAINT EmitAll
 CHECK_DEADLOCK FALSE
